@@ -75,6 +75,11 @@ enum PState { At(String), Done(String), Killed }
 
 /// `req` and `ack` are FIFOs the explorer keeps open read+write for the whole life of the probe: the probe's open() never
 /// blocks or sees a writer come and go, and a read on `ack` blocks until the explorer has written the answer.
+/// process groups of the loader processes this worker has started and not yet reaped (killed by the panic hook and the
+/// watchdog so that an engine failure leaves no loader behind)
+static LIVE_PROBES: std::sync::Mutex<Vec<i32>> = std::sync::Mutex::new(Vec::new());
+pub fn kill_all_probes() { if let Ok(v) = LIVE_PROBES.try_lock() { for &pg in v.iter() { unsafe { libc::kill(-pg, libc::SIGKILL); } } } }
+
 struct Probe { child: Child, req: std::fs::File, ack: std::fs::File, state: PState, history: Vec<String> }
 
 struct World<'a> { env: &'a Env, dir: PathBuf, probes: Vec<Probe>, crashes: usize, timeouts: usize, findings: Vec<(String, String)>, recompilers: usize }
@@ -130,6 +135,7 @@ impl<'a> World<'a> {
             .env("TS_VERIF_CTL", &prefix).env("XDG_CACHE_HOME", self.dir.join("cache")).env("HOME", &self.dir)
             .env("CC", &self.env.fakecc).env("VF_C19_PREBUILT", &self.env.prebuilt).env_remove("CFLAGS").env_remove("VF_CRASH_FILE")
             .stdout(Stdio::piped()).stderr(Stdio::null()).process_group(0).spawn().expect("spawn loader-probe");
+        if let Ok(mut v) = LIVE_PROBES.lock() { v.push(child.id() as i32); if v.len() > 64 { v.drain(..32); } }
         let mut p = Probe { child, req, ack, state: PState::At("spawned".into()), history: vec![] };
         Self::wait_next(&mut p);
         let st = p.state.clone();
